@@ -804,6 +804,7 @@ fn families_of(prop: &str, tier: Tier) -> Vec<Cfg> {
                 OpK::Drive,
                 OpK::Recv,
                 OpK::Disconnect,
+                OpK::MarkDead,
             ];
             a.io = IoMenu::faults_only();
             a.disc_illegal = true;
@@ -865,7 +866,7 @@ fn families_of(prop: &str, tier: Tier) -> Vec<Cfg> {
         "C12" => {
             let mut a = Cfg::base("C12-after-any-failure-or-cancellation");
             a.props = vec!["C12"];
-            a.ops = vec![OpK::Pub1, OpK::Pub2, OpK::Sub, OpK::Poll, OpK::Disconnect, OpK::DropConn, OpK::Forget, OpK::IntoInner];
+            a.ops = vec![OpK::Pub1, OpK::Pub2, OpK::Sub, OpK::Poll, OpK::Disconnect, OpK::DropConn, OpK::Forget, OpK::IntoInner, OpK::MarkDead];
             a.io = IoMenu::full();
             a.cancel = true;
             a.broker.bad_handshake = true;
